@@ -4113,3 +4113,32 @@ def matrix_operand(r: R, chk, qual: str, helper_suffix: str = "add_spline_curve"
                func=qual, construct="transformation matrix applied to the other operand's points")
     chk.floor(rule, f"matrix-times-points products next to {helper_suffix} in {qual}", n, 2)
     return n
+
+
+# ---------------------------------------------------------------------------------------------------------
+# PRODUCT-SAME-NODES: the two factors of a span-by-span weighted integral are sampled at the same nodes
+def product_same_nodes(r: R, chk, qual: str, rule="PRODUCT-SAME-NODES"):
+    """int g(u) C(u) du over a span = width * sum_k w_k g(u_k) C(u_k): inside the span loop every comprehension that samples a
+    factor (`piece.eval(node) for node in X`, `function(node) for node in Y`) walks the same X — the nodes mapped onto the span —
+    not the reference nodes of [0, 1]."""
+    fi = r.prog.func(qual)
+    n = 0
+    for lp in ast.walk(fi.node):
+        if not isinstance(lp, ast.For):
+            continue
+        samples = []
+        for c in ast.walk(lp):
+            if isinstance(c, (ast.GeneratorExp, ast.ListComp)) and len(c.generators) == 1 and isinstance(c.generators[0].target, ast.Name) and isinstance(c.generators[0].iter, ast.Name):
+                t = c.generators[0].target.id
+                if isinstance(c.elt, ast.Call) and len(c.elt.args) == 1 and isinstance(c.elt.args[0], ast.Name) and c.elt.args[0].id == t:
+                    samples.append((c, c.generators[0].iter.id))
+        if len(samples) < 2:
+            continue
+        n += 1
+        names = {nm for _, nm in samples}
+        ok = len(names) == 1
+        chk.ob(rule, f"{qual}: all factors of the span integral are sampled over `{samples[0][1]}`", ok, loc=f"{fi.module}.py:{samples[0][0].lineno}",
+               detail="" if ok else f"{qual}: the factors of the integrand are sampled over different node lists ({', '.join('`' + seg(c_, 40) + '`' for c_, _ in samples)}): one factor is read at the reference nodes of [0, 1] instead of the nodes mapped onto the span — the weighted integral is wrong for every curve that is multi-span or not on [0, 1] as soon as the weight function is not constant",
+               func=qual, construct="factors sampled at different nodes")
+    chk.floor(rule, f"span loops with two sampled factors in {qual}", n, 1)
+    return n
